@@ -319,6 +319,27 @@ def generic_runner(pid, tier, seed, a, cfg):
     known = [k for k in core.load_known_findings() if k.get('property') == pid and k.get('status') == 'open']
     known_zones = {k['zone'] for k in known}
     extra_cov = {}
+    # regression corpus first: witnesses of repaired defects of this property must hold on the current tree
+    regress_fail = []
+    if not a.profile:
+        wctx = None
+        try:
+            for k in core.load_known_findings():
+                if k.get('property') != pid or k.get('status') != 'fixed' or not k.get('witness'):
+                    continue
+                wp = core.VERIF / k['witness']
+                if not wp.exists():
+                    continue
+                if wctx is None:
+                    wctx = engine.setup_worker()
+                wscn = json.loads(wp.read_text())['scenario']
+                wobs, wdiscs = run_one(engine, wscn, wctx)
+                if [d for d in wdiscs if d['prop'] == pid and d.get('zone') is None]:
+                    regress_fail.append((k['id'], wp))
+        finally:
+            if wctx is not None:
+                engine.teardown_worker(wctx)
+        extra_cov['regression_witnesses_replayed'] = [k['id'] for k in core.load_known_findings() if k.get('property') == pid and k.get('status') == 'fixed' and k.get('witness')]
     if cfg.get('prepare') and not a.profile:
         plan = list(plan) + cfg['prepare'](engine, tier, seed, a, extra_cov)
     for profile, n in plan:
@@ -419,13 +440,18 @@ def generic_runner(pid, tier, seed, a, cfg):
     coverage.update(cfg.get('extra_coverage', lambda recs: {})(ran))
     coverage.update(extra_cov)
     if not a.no_evidence:
-        core.write_evidence(pid, tier, seed, cfg['level'], coverage, wall, len(violations), cfg.get('assumptions_override') or (ASSUME_STORE + cfg.get('assumptions', [])))
+        core.write_evidence(pid, tier, seed, cfg['level'], coverage, wall, len(violations) + len(regress_fail), cfg.get('assumptions_override') or (ASSUME_STORE + cfg.get('assumptions', [])))
     print(f'[{pid}] runs={len(ran)} nontrivial={len(nontrivial)} wall={wall:.1f}s runs/h={coverage["runs_per_hour"]} fired={fired_tot} '
           f'aborted_by={aborted} harness_errors={len(harness)} skipped={len(skipped)}')
     for ln in known_lines:
         print(ln)
+    for fid, wp in regress_fail:
+        print(f'  repaired defect {fid} is back (witness scenario fails again)')
+        print(f'VIOLATION property={pid} replay={wp}')
     if harness:
         print('HARNESS ERROR (not a violation):', harness[0]['harness_error'][:1500])
+    if regress_fail and not violations:
+        return 1
     if violations:
         for fp, ds in violations:
             for d in ds:
